@@ -1,4 +1,5 @@
 import HH.Proofs.Obs
+import HH.Props.EndToEnd
 /-!
 # C06 — checkpoint/restore is transparent at every cut point and across back ends
 
@@ -64,6 +65,50 @@ theorem journey_transparent (legs : List Leg) (h : Hasher) (hi : h.Inv) (h' : Ha
     (suffix.foldl Hasher.append h').finalize w = (suffix.foldl Hasher.append (straight h legs)).finalize w := by
   have j := journey_abs legs h h hi hi rfl h' hj
   exact (Hasher.obs_eq h' _ j.2.1 j.2.2 j.1 suffix).1 w
+
+/-- after any journey the later checkpoints (and `finish`) are the uninterrupted ones, byte for byte -/
+theorem journey_checkpoint (legs : List Leg) (h : Hasher) (hi : h.Inv) (h' : Hasher)
+    (hj : journey h legs = some h') (suffix : List (List (BitVec 8))) :
+    (suffix.foldl Hasher.append h').checkpoint = (suffix.foldl Hasher.append (straight h legs)).checkpoint ∧
+    (suffix.foldl Hasher.append h').finalize64 = (suffix.foldl Hasher.append (straight h legs)).finalize64 := by
+  have j := journey_abs legs h h hi hi rfl h' hj
+  exact (Hasher.obs_eq h' _ j.2.1 j.2.2 j.1 suffix).2
+
+/-- all bytes appended along a journey -/
+def legsData (legs : List Leg) : List (BitVec 8) := (legs.map (fun l => l.chunks.flatten)).flatten
+
+theorem straight_abs : ∀ (legs : List Leg) (h : Hasher), h.Inv →
+    (straight h legs).abs = absAppend h.abs (legsData legs) ∧ (straight h legs).Inv := by
+  intro legs
+  induction legs with
+  | nil =>
+    intro h hi
+    refine ⟨?_, hi⟩
+    simp only [straight, legsData, List.map_nil, List.flatten_nil, absAppend]
+    rw [AbsAppend_nil _ _ (Hasher.abs_pending_lt h hi)]
+  | cons l ls ih =>
+    intro h hi
+    have a := Hasher.foldl_append_abs l.chunks h hi
+    have r := ih _ a.2
+    refine ⟨?_, r.2⟩
+    simp only [straight]
+    rw [r.1, a.1]
+    simp only [legsData, List.map_cons, List.flatten_cons, absAppend]
+    exact AbsAppend_assoc _ _ _ _
+
+/-- end to end: a hasher built from a key on any back end, carried through any journey (any cut points, any back end per
+hop) and then fed any suffix, outputs the *specification's* digest of all the bytes, at every width -/
+theorem journey_is_spec (b : Backend) (k : V4) (h : Hasher) (hh : Hasher.new b k = some h) (legs : List Leg)
+    (h' : Hasher) (hj : journey h legs = some h') (suffix : List (List (BitVec 8))) (w : Width) :
+    (suffix.foldl Hasher.append h').finalize w = EndToEnd.specDigest w k (legsData legs ++ suffix.flatten) := by
+  have n := Hasher.new_abs b k h hh
+  have j := journey_abs legs h h n.2 n.2 rfl h' hj
+  have s := straight_abs legs h n.2
+  have a := Hasher.foldl_append_abs suffix h' j.2.1
+  rw [Hasher.finalize_abs _ w a.2, a.1, j.1, s.1, n.1]
+  simp only [absAppend]
+  rw [AbsAppend_assoc]
+  exact EndToEnd.digestAbs_spec w k _
 
 /-- non-vacuity: a two-hop journey portable → sse → avx exists -/
 example : ∃ h', journey (Hasher.portable (P.new ⟨1, 2, 3, 4⟩)) [⟨[[1, 2, 3]], .sse⟩, ⟨[[4], []], .avx⟩] = some h' := by
